@@ -162,6 +162,13 @@ impl State {
 
   /// Choose the next thread. `me` = the baton holder if it is still runnable.
   fn pick(&mut self, me: Option<Tid>, yielding: bool) -> Option<Tid> {
+    self.pick_from(me, me, yielding)
+  }
+
+  /// `holder`: the thread giving up the baton (even if it is not a candidate):
+  /// the default policy continues with the holder if it is a candidate, else
+  /// with the next candidate after it in cyclic tid order (fair under yields).
+  fn pick_from(&mut self, holder: Option<Tid>, me: Option<Tid>, yielding: bool) -> Option<Tid> {
     let runnable = self.runnable_mask();
     if runnable == 0 {
       return None;
@@ -180,9 +187,19 @@ impl State {
     }
     let cur = me.filter(|m| cands & (1 << m) != 0);
     let default = |cands: u32| -> Tid {
-      match cur {
-        Some(m) => m,
-        None => cands.trailing_zeros() as Tid,
+      match (cur, holder) {
+        (Some(m), _) => m,
+        (None, Some(h)) => {
+          let mut t = h;
+          for _ in 0..32 {
+            t = (t + 1) % 32;
+            if cands & (1 << t) != 0 {
+              return t;
+            }
+          }
+          cands.trailing_zeros() as Tid
+        }
+        (None, None) => cands.trailing_zeros() as Tid,
       }
     };
     let mut chosen: Option<Tid> = None;
@@ -322,7 +339,7 @@ impl Exec {
   /// `me` cannot continue until someone makes it runnable again.
   fn block<'a>(&'a self, me: Tid, mut st: MutexGuard<'a, State>, why: TS) -> MutexGuard<'a, State> {
     st.ts[me] = why;
-    match st.pick(None, false) {
+    match st.pick_from(Some(me), None, false) {
       Some(n) => self.hand_over(me, st, n),
       None => {
         let bl = st.blocked_list();
@@ -342,7 +359,7 @@ impl Exec {
         st.ts[i] = TS::Runnable;
       }
     }
-    match st.pick(None, false) {
+    match st.pick_from(Some(me), None, false) {
       Some(n) => {
         st.active = Some(n);
         self.cv[n].notify_one();
